@@ -419,11 +419,13 @@ bool sut_dump(mpq_QSprob p, Model &out, std::string *why, bool deep) {
 // ---------------------------------------------------------------- solve
 std::string SolveCfg::str() const {
   static const char *en[] = {"exact", "primal", "dual"};
-  return strprintf("%s/algo%d/pp%d/dp%d/sc%d/disp%d/prec%d/it%d", en[entry % 3], algo, pprice, dprice, scaling, display, precision, itlim);
+  return strprintf("%s/algo%d/pp%d/dp%d/sc%d/disp%d/prec%d/it%d%s", en[entry % 3], algo, pprice, dprice, scaling, display, precision, itlim,
+                   objlim_kind ? (objlim_kind == 1 ? "/objulim" : "/objllim") : "");
 }
 Op SolveCfg::op() const {
   Op o("cfg");
   o.I(entry).I(algo).I(pprice).I(dprice).I(scaling).I(display).I(precision).I(itlim).I(want_x).I(want_y).I(want_basis);
+  if (objlim_kind) { o.I(objlim_kind); o.N(objlim); }
   return o;
 }
 SolveCfg SolveCfg::from_op(const Op &o) {
@@ -432,6 +434,8 @@ SolveCfg SolveCfg::from_op(const Op &o) {
   c.entry = (int)g(0, 0); c.algo = (int)g(1, 1); c.pprice = (int)g(2, 0); c.dprice = (int)g(3, 0);
   c.scaling = (int)g(4, -1); c.display = (int)g(5, -1); c.precision = (int)g(6, 0); c.itlim = (int)g(7, 0);
   c.want_x = g(8, 1) != 0; c.want_y = g(9, 1) != 0; c.want_basis = g(10, 0) != 0;
+  c.objlim_kind = (int)g(11, 0);
+  if (c.objlim_kind && !o.q.empty()) c.objlim = o.q[0]; else c.objlim_kind = 0;
   return c;
 }
 SolveCfg gen_cfg(Tape &t, bool allow_direct) {
@@ -457,6 +461,7 @@ static void apply_cfg(mpq_QSprob p, const SolveCfg &c) {
   if (c.dprice) mpq_QSset_param(p, QS_PARAM_DUAL_PRICING, c.dprice);
   if (c.scaling >= 0) mpq_QSset_param(p, QS_PARAM_SIMPLEX_SCALING, c.scaling);
   if (c.display >= 0) mpq_QSset_param(p, QS_PARAM_SIMPLEX_DISPLAY, c.display);
+  if (c.objlim_kind == 1 || c.objlim_kind == 2) { Q v = c.objlim; mpq_QSset_param_EGlpNum(p, c.objlim_kind == 1 ? QS_PARAM_OBJULIM : QS_PARAM_OBJLLIM, v.get_mpq_t()); }
   if (c.itlim > 0) mpq_QSset_param(p, QS_PARAM_SIMPLEX_MAX_ITERATIONS, c.itlim);
   if (c.precision > 0) QSexact_set_precision((unsigned)c.precision);
 }
